@@ -51,6 +51,12 @@ inductive WSpec where
 inductive RSpec where
   | s (sfs : List SField)
   | f (names : List Bytes)
+  | m (calls : List Call)      -- reading schedule on one decoder
+
+def callsOf : RSpec → List Call
+  | .s sfs => [.s sfs]
+  | .f ns => [.f ns]
+  | .m cs => cs
 
 def valP : PM Val := do
   let s ← next
@@ -75,10 +81,17 @@ def wspecP : PM WSpec := do
     pure (.f t l)
   | _ => failure
 
+def callP : PM Call := do
+  match ← next with
+  | "S" => let n ← nat; let l ← many sfieldP n; pure (.s l)
+  | "F" => let n ← nat; let l ← many hexB n; pure (.f l)
+  | _ => failure
+
 def rspecP : PM RSpec := do
   match ← next with
   | "S" => let n ← nat; let l ← many sfieldP n; pure (.s l)
   | "F" => let n ← nat; let l ← many hexB n; pure (.f l)
+  | "M" => let n ← nat; let l ← many callP n; pure (.m l)
   | _ => failure
 
 def expect (s : String) : PM Unit := do let t ← next; if t = s then pure () else failure
@@ -130,6 +143,7 @@ def runRead (c : Case) (f : FileM UInt64) : ReadRes UInt64 :=
   match c.r with
   | .s sfs => readS 0 f sfs
   | .f names => readF f names
+  | .m calls => readM 0 f calls
 
 def rvalTok : RVal UInt64 → Option String
   | .int i => some ("i" ++ toString i)
@@ -256,11 +270,12 @@ def kindAccepts (k : GK) (g : BGeom) : Bool :=
 
 def tyOfKind : Kind → Nat | .int => 0 | .float => 1 | .str => 2 | _ => 3
 
-/-- what the reader asks for: per returned attribute value, the column it should carry (`none` = the
-statement does not decide). `none` overall: the reading side is outside the statement. -/
-def readerPlan (c : Case) (cols : List Col) : Option (List (Option Nat)) :=
+/-- what one reading call asks for: per returned attribute value, the column it should carry (`none` =
+the statement does not decide). `none` overall: the call is outside the statement. The flag says whether
+the call is `DecodeRow` (typed values) or `DecodeRowFields` (texts). -/
+def callPlan (c : Case) (cols : List Col) (call : Call) : Option (Bool × List (Option Nat)) :=
   let names := cols.map (·.name)
-  match c.r with
+  match call with
   | .s sfs =>
     let gks := sfs.filterMap fun sf => match sf.kind with | .geom k => some k | _ => none
     if gks.length != 1 then none
@@ -269,14 +284,19 @@ def readerPlan (c : Case) (cols : List Col) : Option (List (Option Nat)) :=
         match Spec.columnFor names sf.tag sf.name with
         | some (some j) => (match cols[j]? with | some col => col.ty == tyOfKind sf.kind | none => false)
         | _ => true) then none   -- a column read back with another type: outside the statement
-    else some ((sfs.filter fun sf => match sf.kind with | .geom _ => false | _ => true).map fun sf =>
+    else some (true, (sfs.filter fun sf => match sf.kind with | .geom _ => false | _ => true).map fun sf =>
       match Spec.columnFor names sf.tag sf.name with
       | some (some j) => some j
       | _ => none)
   | .f ns =>
     if ns.all (fun n => !(Spec.indicesOf names n).isEmpty) then
-      some (ns.map fun n => match Spec.indicesOf names n with | [j] => some j | _ => none)
+      some (false, ns.map fun n => match Spec.indicesOf names n with | [j] => some j | _ => none)
     else none
+
+/-- the plans of all calls of the reading schedule (`none`: some call is outside the statement) -/
+def readerPlan (c : Case) (cols : List Col) : Option (List (Bool × List (Option Nat))) :=
+  let cs := callsOf c.r
+  if cs.isEmpty then none else cs.mapM (callPlan c cols)
 
 def hexTok (s : String) : Option Bytes :=
   if s.length = 1 then some [] else hexToBytes ((s.drop 1).toString)
@@ -308,23 +328,25 @@ def checkVal (readerIsStruct : Bool) (col : Col) (written : Val) (got : String) 
       | none => some (0, s!"float-unreadable wrote={u64Hex u} got={got}")
 
 /-- "no geometry" in a struct field of a concrete geometry type is that type's zero value -/
-def noGeomAs (c : Case) : BGeom → BGeom
-  | .nil => (match c.r with
-    | .s sfs => (match (sfs.filterMap fun sf => match sf.kind with | .geom k => some k | _ => none).head? with
+def noGeomAs (call : Option Call) : BGeom → BGeom
+  | .nil => (match call with
+    | some (.s sfs) => (match (sfs.filterMap fun sf => match sf.kind with | .geom k => some k | _ => none).head? with
       | some k => zeroFieldGeom k
       | none => .nil)
-    | .f _ => .nil)
+    | _ => .nil)
   | g => g
 
 /-- all violations of the statement in the implementation's answer (in-contract file) -/
-def specViolations (c : Case) (cols : List Col) (plan : List (Option Nat)) (o : ImplOut) : List (Nat × String) :=
-  let readerIsStruct := match c.r with | .s _ => true | .f _ => false
+def specViolations (c : Case) (cols : List Col) (plans : List (Bool × List (Option Nat))) (o : ImplOut) : List (Nat × String) :=
+  let calls := callsOf c.r
   let a := if o.res.all (· == "ok") && o.res.length == c.recs.length then [] else [(0, "a-record-in-contract-was-not-written")]
   let b := if o.panicked then [(0, "reader-panicked")] else []
   let e := if o.err then [(0, "reader-reports-an-error")] else []
   let n := if o.rows.length == c.recs.length then [] else [(0, s!"record-count wrote={c.recs.length} read={o.rows.length}")]
   let rows := (List.zip c.recs o.rows).zipIdx.flatMap fun ((rec, row), i) =>
-    let g := match (Spec.normal ptEqBits rec.1).map (noGeomAs c) with
+    -- record i is read with call i mod k; whatever the call asks for, it is record i's data
+    let (readerIsStruct, plan) := (plans[i % plans.length]?).getD (false, [])
+    let g := match (Spec.normal ptEqBits rec.1).map (noGeomAs calls[i % calls.length]?) with
       | some want => if Geom.beq want row.g then [] else [(0, s!"geometry-differs row={i} want={Proto.geomStr want} got={Proto.geomStr row.g}")]
       | none => []
     let vs := (List.zip plan row.vals).flatMap fun (pj, got) =>
@@ -340,7 +362,7 @@ def specViolations (c : Case) (cols : List Col) (plan : List (Option Nat)) (o : 
   a ++ b ++ e ++ n ++ rows
 
 def pathName (c : Case) : String :=
-  (match c.w with | .s _ => "S" | .f _ _ => "F") ++ (match c.r with | .s _ => "S" | .f _ => "F")
+  (match c.w with | .s _ => "S" | .f _ _ => "F") ++ (match c.r with | .s _ => "S" | .f _ => "F" | .m _ => "M")
 
 def firstDiff : Tok → Tok → Nat → String
   | a :: as, b :: bs, i => if a == b then firstDiff as bs (i + 1) else s!"token {i}: model={a} impl={b}"
